@@ -1000,15 +1000,15 @@ fn thorough_configs() -> Vec<(Config, u64)> {
     use Hint::*;
     let mut out = vec![];
     // k = 2 senders, one blocking period with a poll: every class of hint pair
-    for (a, b) in [(N, N), (N, B), (N, M(0)), (B, M(0))] {
+    for (a, b) in [(N, N), (N, B), (N, M(0))] {
         out.push((cfg(&[(a, true), (b, true)], &["SPD"]), 40_000));
     }
     // one period without poll: remaining hint pairs; inner sender answering Retry
-    for (a, b) in [(M(0), M(2)), (B, B), (M(2), M(2)), (N, M(2))] {
+    for (a, b) in [(B, M(0)), (M(0), M(2)), (B, B), (M(2), M(2)), (N, M(2))] {
         out.push((cfg(&[(a, true), (b, true)], &["SD"]), 40_000));
     }
     out.push((cfg(&[(N, false), (N, true)], &["SD"]), 40_000));
-    out.push((cfg(&[(M(0), false), (B, true)], &["SPD"]), 40_000));
+    out.push((cfg(&[(M(0), false), (B, true)], &["SD"]), 40_000));
     // stop_blocking during blocking; handle never dropped
     out.push((cfg(&[(N, true), (N, true)], &["SRD"]), 40_000));
     out.push((cfg(&[(N, true), (B, true)], &["SP"]), 40_000));
@@ -1016,7 +1016,7 @@ fn thorough_configs() -> Vec<(Config, u64)> {
     out.push((cfg(&[(N, true)], &["SPDSPD"]), 40_000));
     out.push((cfg(&[(M(1), true)], &["SPDSPD"]), 40_000));
     out.push((cfg(&[(N, true)], &["SD", "SD"]), 40_000));
-    out.push((cfg(&[(M(2), true)], &["SPD", "SD"]), 40_000));
+    out.push((cfg(&[(M(2), true)], &["SPD", "SD"]), 8_000));
     // two blocking periods, k = 2: too large to exhaust, DFS prefix (plus random schedules below)
     for (a, b) in [(N, N), (M(0), B)] {
         out.push((cfg(&[(a, true), (b, true)], &["SDSPD"]), 6_000));
